@@ -113,6 +113,37 @@ def run_seq(sc):
             return int(round((w.clock.now - 1000.0) * 1000))
 
         import signal
+        gate = None
+        if sc.get("other_reader"):
+            # another, unrelated connection of the same process with a thread blocked in recv(): nothing of it may hold this one up
+            import threading
+
+            class Blocker:
+                def recv(self, n):
+                    gate.wait(30)
+                    return b""
+
+                def gettimeout(self):
+                    return None
+
+                def settimeout(self, t):
+                    pass
+
+                def close(self):
+                    pass
+            gate = threading.Event()
+            other = websocket.WebSocket()
+            other.sock = Blocker()
+            other.connected = True
+
+            def blocked_reader():
+                try:
+                    other.recv()
+                except Exception:      # noqa
+                    pass
+            threading.Thread(target=blocked_reader, daemon=True).start()
+            import time as _rt
+            _rt.sleep(0.05)
 
         class WallHang(BaseException):
             pass
@@ -122,7 +153,7 @@ def run_seq(sc):
         old_alarm = signal.signal(signal.SIGALRM, on_alarm)
         for name in sc["calls"]:
             c = CALLS_ALL[name]
-            signal.setitimer(signal.ITIMER_REAL, 8.0)       # real time: a call that hangs outside the simulated world (a lock never released)
+            signal.setitimer(signal.ITIMER_REAL, 3.0 if gate is not None else 8.0)       # real time: a call that hangs outside the simulated world (a lock never released)
             ce = {"ev": "call", "api": c["api"], "t": now(), "control": bool(c.get("control", False)), "value": c.get("value", 0),
                   "op": c.get("op", 0), "payload": list(c.get("payload", b"")), "status": c.get("status", 0),
                   "reason": list(c.get("reason", b"")), "timeout": c.get("timeout", 0), "name": name}
@@ -173,6 +204,8 @@ def run_seq(sc):
             finally:
                 signal.setitimer(signal.ITIMER_REAL, 0)
         signal.signal(signal.SIGALRM, old_alarm)
+        if gate is not None:
+            gate.set()
     log({"ev": "end"})
     return ev
 
@@ -197,6 +230,9 @@ def scenarios(rng, tier):
     for _ in range(300 if tier == "quick" else 5000):
         n += 1
         out.append({"tid": "q%d" % n, "server": rng.choice(servers), "calls": [rng.choice(names) for _ in range(rng.randrange(4, 7))]})
+    for sv, calls in (("data_ping_close_eof", ["recv", "recv", "close"]), ("silence", ["send", "close_short"]), ("chatty_fast", ["recv", "close"])):
+        n += 1
+        out.append({"tid": "q%d" % n, "server": sv, "calls": calls, "other_reader": True})
     for tail in (["close", "recv"], ["shutdown", "recv", "send"], ["recv", "recv"], ["send_close", "recv", "close", "recv"]):
         n += 1
         out.append({"tid": "q%d" % n, "server": "huge_len_eof", "calls": ["recv", "recv"] + tail})
